@@ -69,6 +69,12 @@ class C07(scen.WorldProp):
             if stop is not None:
                 stop_t = t0 + 3 + rng.uniform(0.2, 13) * row_t
                 events.append(call(stop_t, stop))
+            stop2_t = None
+            if stop == THATS_ALL and rng.random() < 0.4:
+                # Rounds is called in the row of That's all or soon after it: the last instruction counts, so the
+                # opening row (not rounds, when there is a custom start row) is what Wheatley goes back to
+                stop2_t = stop_t + rng.uniform(0.0, 2.4) * row_t
+                events.append(call(stop2_t, ROUNDS))
             end = t0 + 3 + 22 * row_t
             N0 = N
             if kind == "plainhunt" and spec.get("start_row") is None and rng.random() < 0.2:
@@ -92,7 +98,7 @@ class C07(scen.WorldProp):
                       "bot": scen.bot_cfg({"type": "placeholder"}, up_down_in=True, stop_at_rounds=sar,
                                           user_name="Wheatley", server_id=6),
                       "rhythm": scen.rhythm_cfg("wait", inertia=1.0, peal_speed=ps)}
-                yield {"k": "world", "scenario": sc, "stop": stop, "stop_t": stop_t, "t0": t0}
+                yield {"k": "world", "scenario": sc, "stop": stop, "stop_t": stop_t, "t0": t0, "stop2_t": stop2_t}
                 continue
             if rng.random() < 0.25:
                 # Wheatley joins a bigger tower, which is made smaller before the touch
@@ -102,7 +108,7 @@ class C07(scen.WorldProp):
             sc = {"start": 1000.0, "end": end, "tower_size": N0, "events": events,
                   "bot": scen.bot_cfg(spec, up_down_in=udi, stop_at_rounds=sar),
                   "rhythm": scen.rhythm_cfg(rng.choice(["wait", "regression"]), peal_speed=ps)}
-            yield {"k": "world", "scenario": sc, "stop": stop, "stop_t": stop_t, "t0": t0}
+            yield {"k": "world", "scenario": sc, "stop": stop, "stop_t": stop_t, "t0": t0, "stop2_t": stop2_t}
 
     def nontrivial(self, req, reply):
         if req["stop"] is None or not reply["strikes"]:
@@ -155,7 +161,7 @@ class C07(scen.WorldProp):
             if not on_in_window:
                 return (f"Wheatley stopped by itself after {len(rows)} rows although nobody called Stand and handbell style "
                         f"(stop at rounds) had been off for the last {window:.1f} s")
-        if sar_always and stop != ROUNDS and rows:
+        if sar_always and stop != ROUNDS and req.get("stop2_t") is None and rows:
             # handbell-style stop: once rounds has come up after the method started, the whole pull is completed
             # and nothing more is rung
             first = next((i for i in range(len(rows)) if rows[i] != rows[0]), None)
@@ -190,8 +196,16 @@ class C07(scen.WorldProp):
             # one before the method was due to start (a Go made just before, or the up-down-in count)
             if rows[k + 1] != rounds:
                 return f"That's all during rounds (row {k}, before the method started) but row {k+1} = {rows[k+1]}"
+        tc2, k2 = req.get("stop2_t"), len(rows)
+        if tc2 is not None and tc2 <= scen.b2f(strikes[-1][0]) + 1e-9:
+            k2 = sum(1 for (t, _, _) in strikes if scen.b2f(t) < tc2) // N
+            if any(rows[i] != rows[0] for i in range(min(k2 + 1, len(rows)))):
+                for i in range(k2 + 1, len(rows)):
+                    if rows[i] != rows[0]:
+                        return (f"That's all during row {k}, then Rounds during row {k2}: row {i} = {rows[i]} is not the "
+                                f"opening row {rows[0]}")
         if stop == THATS_ALL and in_method:
-            for i in range(k + 2, len(rows)):
+            for i in range(k + 2, min(len(rows), k2 + 1)):
                 if rows[i] != rounds:
                     return f"That's all during row {k}: row {i} = {rows[i]} is not rounds"
             if k + 1 < len(rows) and rows[k] == rounds and k > 0 and rows[k + 1] != rounds and rows[0] == rounds:
